@@ -197,10 +197,50 @@ func genCase(t *rapid.T) Case {
 		}
 		c.Peers = append(c.Peers, ps)
 	}
+	if attack && np >= 2 && g.pick("transientliar", 6) == 0 {
+		// the only misbehaviour of the case: one peer claims a height far above the chain's and
+		// then hangs up for good, or corrects itself; everybody else is honest. Once the claim is
+		// gone the node has honest peers only and must finish like in an honest-only case.
+		for p := range c.Peers {
+			c.Peers[p].Acts, c.Peers[p].StatusDelta, c.Peers[p].DropAtMs, c.Peers[p].Redial = nil, 0, 0, true
+		}
+		liar := &c.Peers[1+g.pick("liar", np-1)]
+		liar.StatusDelta = g.among("liardelta", 1, 3, 1000, 1<<40)
+		liar.ConnectDelayMs = 0
+		if g.pick("liarleaves", 2) == 0 {
+			liar.DropAtMs, liar.Redial = 200+g.pick("liardrop", 600), false
+		} else {
+			liar.StatusDeltaUntilMs = 200 + g.pick("liaruntil", 600)
+		}
+	}
 	// peer 0 always reconnects and keeps telling the true height, so that the chain stays obtainable
 	c.Peers[0].Redial = true
 	c.Peers[0].StatusDelta = 0
 	return c
+}
+
+// transientLiarOnly: the case's only misbehaviour is a height claim above the chain that goes
+// away within a second (the peer hangs up for good or corrects itself).
+func (c Case) transientLiarOnly() bool {
+	liars := 0
+	for _, p := range c.Peers {
+		if len(p.Acts) > 0 || p.StatusDelta < 0 {
+			return false
+		}
+		if p.StatusDelta == 0 {
+			if p.DropAtMs != 0 {
+				return false
+			}
+			continue
+		}
+		leaves := p.DropAtMs > 0 && p.DropAtMs <= 1000 && !p.Redial
+		corrects := p.StatusDeltaUntilMs > 0 && p.StatusDeltaUntilMs <= 1000 && p.DropAtMs == 0
+		if !leaves && !corrects {
+			return false
+		}
+		liars++
+	}
+	return liars > 0
 }
 
 // applyExclusions removes the tamperings that are certain to hit an open known finding.
@@ -565,6 +605,9 @@ func syncOnce(c Case, src *srcChain, srcDir, syncDir string, last bool, x *h.Ctx
 	synced := rep.StoreHeight
 	label("peers:%d", len(c.Peers))
 	labelServed(label, servedKinds, c)
+	if c.transientLiarOnly() {
+		label("transient-overstated-height-claim")
+	}
 	if synced >= target {
 		label("synced")
 		label("sync-ms:<%d", ((rep.ElapsedMs-1400)/500+1)*500)
@@ -578,6 +621,11 @@ func syncOnce(c Case, src *srcChain, srcDir, syncDir string, last bool, x *h.Ctx
 			label("not-synced:pool-routine-silent")
 			cb, _ := json.Marshal(c)
 			h.Note("C13", "fastsync", "pool routine silent for %v before the node was stopped at height %d of %d; case %s", gap, synced, target, cb)
+		}
+		if c.transientLiarOnly() {
+			if fail("sync-stalls-after-overstated-height-claim-is-gone", "a peer claimed a height above the chain's and then hung up for good or corrected itself; all other peers are honest, yet the syncing node reached height %d of %d within %d ms\n%s\n--- output tail ---\n%s", synced, target, budget, ctx, tailLines(out, 15)) {
+				return
+			}
 		}
 		if !c.tampers() {
 			if fail("honest-sync-stalls", "with honest peers only the syncing node reached height %d of %d within %d ms\n%s\n--- output tail ---\n%s", synced, target, budget, ctx, tailLines(out, 15)) {
